@@ -54,26 +54,26 @@ Proof.
 Qed.
 
 Lemma huffval_perm cs nz n1 :
-  (n1 <= length nz)%nat -> (forall i, (i < n1)%nat -> 1 <= nthZ cs i <= 32) ->
+  (n1 <= length nz)%nat -> (forall i, (i < n1)%nat -> 1 <= nthZ cs i <= 64) ->
   Permutation (huffval_of cs nz n1) (firstn n1 nz).
 Proof.
-  intros Hl Hc. unfold huffval_of, symbols_of_len. change MAX_CLEN with 32%nat.
+  intros Hl Hc. unfold huffval_of, symbols_of_len. change MAX_CLEN with 64%nat.
   rewrite <- (map_map (fun l => filter (fun i => nthZ cs i =? Z.of_nat l) (seq 0 n1))
                       (map (fun i => nthZ nz i))).
   rewrite <- concat_map.
   rewrite <- (map_nth_firstn 0 n1 nz Hl).
   apply (Permutation_map (fun i => nthZ nz i)).
-  rewrite (bucket (nthZ cs) (seq 0 n1) 32 1).
+  rewrite (bucket (nthZ cs) (seq 0 n1) 64 1).
   rewrite filter_all; [reflexivity|].
   intros i Hi. apply in_seq in Hi. specialize (Hc i ltac:(lia)). lia.
 Qed.
 
 (* --------------------------------------------------- the bits[] pipeline *)
 Definition finish (nz cs : list Z) : gen_err + hufftbl :=
-  match count_bits cs (repeat 0 33) with
+  match count_bits cs (repeat 0 65) with
   | None => inl ClenOverflow
   | Some bits0 =>
-      match limit_for 16 bits0 with
+      match limit_for 48 bits0 with
       | None => inl IndexUnderflow
       | Some None => inl OutOfFuel
       | Some (Some bits1) =>
@@ -100,7 +100,7 @@ Proof. vm_compute. reflexivity. Qed.
 Lemma nthZ_repeat0 k l : nthZ (repeat 0 k) l = 0.
 Proof. unfold nthZ. apply nth_repeat. Qed.
 
-Lemma BInv_zero : BInv (repeat 0 33).
+Lemma BInv_zero : BInv (repeat 0 65).
 Proof. split; [apply repeat_length|]. intros l. rewrite nthZ_repeat0. lia. Qed.
 
 Lemma In_firstn {A} (x : A) k l : In x (firstn k l) -> In x l.
@@ -120,7 +120,7 @@ Lemma finish_spec syms x cs :
   (n <= 255)%nat -> length cs = n -> (forall c, In c cs -> 0 <= c <= Z.of_nat n - 1) ->
   sumZ (map pw cs) = 2 ^ D -> ((2 <= n)%nat -> forall c, In c cs -> 1 <= c) ->
   match finish (syms ++ [x]) cs with
-  | inl ClenOverflow => exists c, In c cs /\ c > 32
+  | inl ClenOverflow => exists c, In c cs /\ c > 64
   | inl _ => False
   | inr t => good_table t syms
   end.
@@ -137,15 +137,15 @@ Proof.
     split; [reflexivity|]. split; [constructor|]. intros H; contradiction. }
   assert (H2 : (2 <= n)%nat) by (unfold n; lia).
   specialize (P1 H2).
-  unfold finish. destruct (count_bits cs (repeat 0 33)) as [b0|] eqn:EC.
+  unfold finish. destruct (count_bits cs (repeat 0 65)) as [b0|] eqn:EC.
   2:{ apply count_bits_none in EC. exact EC. }
-  assert (S0 : sumZ (repeat 0 33) = 0) by reflexivity.
-  assert (W0 : WD (repeat 0 33) = 0).
+  assert (S0 : sumZ (repeat 0 65) = 0) by reflexivity.
+  assert (W0 : WD (repeat 0 65) = 0).
   { unfold WD. apply W_zero. intros l _. apply nthZ_repeat0. }
-  destruct (count_bits_some cs _ _ BInv_zero ltac:(rewrite S0, L; lia) P1 (nthZ_repeat0 33 0) EC)
+  destruct (count_bits_some cs _ _ BInv_zero ltac:(rewrite S0, L; lia) P1 (nthZ_repeat0 65 0) EC)
     as (B0 & Sb & Wb & Zb & Cb).
   rewrite S0, L in Sb. rewrite W0, K in Wb.
-  assert (I0 : LInv (Z.of_nat n) 32 b0).
+  assert (I0 : LInv (Z.of_nat n) 64 b0).
   { split; [exact B0|]. split; [lia|]. split; [lia|]. split; [exact Zb|].
     intros l Hl. apply nthZ_overflow. rewrite (proj1 B0). lia. }
   destruct (tail_spec (Z.of_nat n) b0 ltac:(lia) I0)
@@ -169,7 +169,7 @@ Theorem gen_table_valid : forall freq256 : list Z,
   (length (nz_scan (firstn 256 freq256) 0) <= 254)%nat ->
   match gen_optimal_table freq256 with
   | inl ClenOverflow =>
-      exists cs nz, gen_codesizes freq256 = inr (nz, cs) /\ exists c, In c cs /\ c > 32
+      exists cs nz, gen_codesizes freq256 = inr (nz, cs) /\ exists c, In c cs /\ c > 64
   | inl OutOfFuel => False
   | inl IndexUnderflow => False
   | inr t =>
